@@ -221,9 +221,38 @@ def _and_const(x, m):
     return z3.Sum(terms) if terms else z3.IntVal(0)
 
 
+def _disjoint_sum(I, a, b):
+    """a | b (= a ^ b) as a + b when the path condition shows the operands occupy disjoint bit
+    ranges: 0 <= lo < 2^k and hi a multiple of 2^k (hi >= 0)"""
+    ctx = I.ctx
+    x, y = zi(a), zi(b)
+    for lo, hi in ((x, y), (y, x)):
+        ctx.solver.set("timeout", ctx.feas_ms)
+        ctx.solver.push()
+        ctx.solver.add(hi != 0)
+        r = ctx.solver.check()
+        v = ctx.solver.model().eval(hi, model_completion=True) if r == z3.sat else None
+        ctx.solver.pop()
+        if r == z3.unsat:
+            return wrap_int(lo) if ctx.entails(lo >= 0) else None
+        if v is None or not z3.is_int_value(v) or v.as_long() <= 0:
+            continue
+        vv = v.as_long()
+        k = (vv & -vv).bit_length() - 1
+        if k == 0:
+            continue
+        if ctx.entails(z3.And(lo >= 0, lo < 2 ** k, hi >= 0, hi % (2 ** k) == 0), ms=2000):
+            return wrap_int(lo + hi)
+    return None
+
+
 def _bitwise_int(I, o, a, b):
     """general & | ^ on integers: needs known bit widths (declared via bounds in pc)"""
     ctx = I.ctx
+    if o in ("|", "^") and not isinstance(a, int) and not isinstance(b, int):
+        r = _disjoint_sum(I, a, b)
+        if r is not None:
+            return r
     for u, v in ((a, b), (b, a)):
         if isinstance(v, int) and not isinstance(v, bool) and v >= 0 and not isinstance(u, int):
             x = zi(u)
@@ -427,6 +456,11 @@ def contains(I, container, x):
         m = container.cls.find_method(I.world, "__contains__")
         if m is not None:
             return I.call_func(m, [container, x], {})
+    if not _sym(x) and not isinstance(container, (SBytes, SList, Obj, Opaque, SStream)) and not isinstance(x, (Obj, Opaque, SStream)):
+        try:
+            return x in container
+        except TypeError as e:
+            raise PyRaise(ExcVal(TypeError, e.args))
     raise Unsupported(f"`in` on {type(container).__name__}")
 
 
@@ -1015,6 +1049,9 @@ def wrap_live_instance(I, v):
     """a live value met through a module global or attribute"""
     if isinstance(v, (int, str, bytes, float, type(None), tuple, frozenset, range, complex)):
         return v
+    import enum
+    if isinstance(v, enum.Enum):
+        return v        # enum members are atomic values
     if isinstance(v, types.MappingProxyType):
         return dict(v)
     if isinstance(v, (list, dict, set, bytearray)):
